@@ -34,8 +34,18 @@ const N: u32 = 4;
 pub fn shards(tier: &str) -> Vec<String> {
     let mut v = vec![];
     for k in ["bdd", "bcdd"] {
-        for op in ["and", "xor", "ite", "not", "exists", "apply_exists", "substitute", "restrict", "pick_cube_dd", "pick_cube_dd_set", "import_ascii", "import_bin"] {
+        for op in ["and", "xor", "ite", "not", "exists", "substitute", "restrict", "pick_cube_dd", "pick_cube_dd_set", "import_ascii", "import_bin"] {
             v.push(format!("{k}:{op}:t1"));
+        }
+        for q in ["exists", "forall", "unique"] {
+            for inner in ["and", "or", "xor", "equiv", "nand", "nor", "imp", "imp_strict"] {
+                v.push(format!("{k}:apply_{q}-{inner}:t1"));
+            }
+        }
+        // the multi-threaded recursion: split depth 4 on ONE worker (deterministic: both halves of
+        // a join run on the same thread one after the other) and 2 workers (free-running)
+        for op in ["and", "xor", "ite", "exists", "apply_exists-and", "apply_forall-or", "substitute", "restrict"] {
+            v.push(format!("{k}:{op}:t1d4"));
         }
         for op in ["and", "ite", "exists"] {
             v.push(format!("{k}:{op}:t2"));
@@ -44,6 +54,9 @@ pub fn shards(tier: &str) -> Vec<String> {
     }
     for op in ["union", "change", "subset1", "not", "ite", "and", "import_ascii"] {
         v.push(format!("zbdd:{op}:t1"));
+    }
+    for op in ["union", "ite", "and", "not"] {
+        v.push(format!("zbdd:{op}:t1d4"));
     }
     v.push("zbdd:reorder:t1".into());
     v.push("zbdd:add_vars:t1".into());
@@ -58,9 +71,22 @@ fn x(v: u32) -> Tab {
     model::var_tab(v, N)
 }
 
-/// operands: three 4-variable functions with many nodes
+thread_local! {
+    static OPSET: std::cell::Cell<usize> = const { std::cell::Cell::new(0) };
+}
+const NSETS: usize = 5;
+
+/// operands: three 4-variable functions; several sets so that different terminal / shortcut
+/// cases of the recursions are the place where the store runs dry
 fn operand_tabs() -> [Tab; 3] {
-    [0x6996, (x(0) & x(1)) | (x(2) & x(3)), ((x(0) ^ x(2)) | (x(1) & !x(3))) & 0xffff]
+    let m = 0xffffu64;
+    match OPSET.with(|c| c.get()) {
+        0 => [0x6996, (x(0) & x(1)) | (x(2) & x(3)), ((x(0) ^ x(2)) | (x(1) & !x(3))) & m],
+        1 => [(x(0) | (x(1) & x(2))) & m, ((x(0) & (x(2) ^ x(3))) | (!x(0) & x(1))) & m, (x(1) | x(3)) & m],
+        2 => [(x(0) ^ x(1) ^ x(2)) & m, (x(1) & x(3)) & m, (x(0) | x(2)) & m],
+        3 => [((x(0) & x(1)) | (x(2) & x(3))) & m, ((x(0) ^ x(2)) | (x(1) & !x(3))) & m, 0x6996],
+        _ => [((x(0) & x(1) & x(2)) | (!x(0) & x(3))) & m, (x(0) | (x(2) & x(3))) & m, ((x(1) ^ x(3)) & x(2)) & m],
+    }
 }
 
 /// ballast: functions sharing few nodes with the operands
@@ -81,7 +107,16 @@ fn expected(op: &str) -> Option<Tab> {
         "ite" => model::ite(f, g, h, N),
         "not" => model::not(h, N),
         "exists" => model::exists(h, 0b0110, N),
-        "apply_exists" => model::exists(g & h, 0b0101, N),
+        o if o.starts_with("apply_") => {
+            let (q, inner) = o[6..].split_once('-').unwrap();
+            let inner = model::BinOp::from_name(inner).unwrap();
+            let t = inner.apply(g, h, N);
+            match q {
+                "exists" => model::exists(t, 0b0101, N),
+                "forall" => model::forall(t, 0b0101, N),
+                _ => model::unique(t, 0b0101, N),
+            }
+        }
         "substitute" => model::substitute(g, &[Some(h), None, Some(f), None], N),
         "restrict" => model::restrict(h, 0b0010, 0b1000, N),
         "union" => f | g,
@@ -118,9 +153,24 @@ macro_rules! impl_k14_bdd {
                         let cube = <$k as BoolKind>::build(mref, model::cube_tab(0b0110, 0, N))?;
                         o[2].exists(&cube)
                     }
-                    "apply_exists" => {
+                    name if name.starts_with("apply_") => {
+                        let (q, inner) = name[6..].split_once('-').unwrap();
+                        let bop = match inner {
+                            "and" => BooleanOperator::And,
+                            "or" => BooleanOperator::Or,
+                            "xor" => BooleanOperator::Xor,
+                            "equiv" => BooleanOperator::Equiv,
+                            "nand" => BooleanOperator::Nand,
+                            "nor" => BooleanOperator::Nor,
+                            "imp" => BooleanOperator::Imp,
+                            _ => BooleanOperator::ImpStrict,
+                        };
                         let cube = <$k as BoolKind>::build(mref, model::cube_tab(0b0101, 0, N))?;
-                        o[1].apply_exists(BooleanOperator::And, &o[2], &cube)
+                        match q {
+                            "exists" => o[1].apply_exists(bop, &o[2], &cube),
+                            "forall" => o[1].apply_forall(bop, &o[2], &cube),
+                            _ => o[1].apply_unique(bop, &o[2], &cube),
+                        }
                     }
                     "substitute" => {
                         let s = Subst::new(vec![0u32, 2], vec![o[2].clone(), o[0].clone()]);
@@ -158,23 +208,24 @@ impl K14 for Zbdd {
 }
 
 fn case<K: BoolKind>(op: &str, c: usize, threads: u32, phase: &str) -> serde_json::Value {
-    json!({"kind": K::NAME, "n": N, "op": op, "node_capacity": c, "threads": threads, "phase": phase,
+    json!({"kind": K::NAME, "n": N, "op": op, "node_capacity": c, "threads": if threads == 101 { 1 } else { threads }, "split_depth": if threads == 101 { 4 } else if threads > 1 { 2 } else { 0 }, "phase": phase, "operand_set": OPSET.with(|c| c.get()),
            "operands": operand_tabs(), "ballast": ballast_tabs()})
 }
 
 /// one run at capacity `c`; returns false if the operand construction already failed
-fn run_at<K: K14>(ctx: &mut Ctx, op: &str, c: usize, threads: u32, b0: &mut Option<usize>) -> bool {
+fn run_at<K: K14>(ctx: &mut Ctx, op: &str, c: usize, threads: u32, b0: &mut Option<usize>, need: usize) -> bool {
     ctx.count("evaluations", 1);
     let base = attrs(&[("kind", K::NAME), ("op", op)]);
     let mut fail = |ctx: &mut Ctx, class: &str, phase: &str, msg: String| {
         let mut a = base.clone();
         a.insert("class".into(), class.into());
-        ctx.viol(a, case::<K>(op, c, threads, phase), &format!("{} {op} at node capacity {c} ({threads} worker(s)), {phase}: {msg}", K::NAME));
+        ctx.viol(a, case::<K>(op, c, threads, phase), &format!("{} {op} at node capacity {c} ({}), {phase}: {msg}", K::NAME, if threads == 101 { "1 worker, split depth 4".to_string() } else { format!("{threads} worker(s)") }));
     };
     crate::proto::throttle_threads();
+    let (threads, split) = if threads == 101 { (1, Some(4)) } else if threads > 1 { (threads, Some(2)) } else { (1, None) };
     let mref = K::new_manager(c, 64, threads);
-    if threads > 1 {
-        K::set_split_depth(&mref, Some(2));
+    if split.is_some() {
+        K::set_split_depth(&mref, split);
     }
     // ZBDD: add_vars builds the tautology chain and aborts when that does not fit; that is its own script
     if K::NAME == "zbdd" && c < N as usize {
@@ -274,14 +325,17 @@ fn run_at<K: K14>(ctx: &mut Ctx, op: &str, c: usize, threads: u32, b0: &mut Opti
                 Ok(r) => check_ok(ctx, &r, "retry after drop + gc", &mut fail),
                 Err(_) => {
                     let free_now = c.saturating_sub(mref.with_manager_shared(|m| m.num_inner_nodes()));
-                    if threads > 1 {
+                    if threads > 1 || split.is_some() {
                         // worker threads keep pre-allocated chunks / local free lists; on a store of a
                         // few dozen nodes a second worker can run dry although slots are free. That is
                         // how the allocator is designed, not a violation; the outcome is still
                         // "OutOfMemory + intact manager" (audited below).
                         ctx.outcome("mt_retry_still_oom");
+                    } else if free_now >= need {
+                        fail(ctx, "retry_failed", "retry after drop + gc", format!("still OutOfMemory although {free_now} node slots are free and the operation allocates {need} nodes on an ample manager"));
                     } else {
-                        fail(ctx, "retry_failed", "retry after drop + gc", format!("still OutOfMemory although {free_now} node slots are free"));
+                        // dropping the ballast did not free enough for this operand set
+                        ctx.outcome("retry_legitimately_oom");
                     }
                 }
             }
@@ -301,6 +355,14 @@ fn run_at<K: K14>(ctx: &mut Ctx, op: &str, c: usize, threads: u32, b0: &mut Opti
 }
 
 fn sweep<K: K14>(ctx: &mut Ctx, op: &str, threads: u32) {
+    for set in 0..NSETS {
+        OPSET.with(|c| c.set(set));
+        sweep_set::<K>(ctx, op, threads);
+    }
+    OPSET.with(|c| c.set(0));
+}
+
+fn sweep_set<K: K14>(ctx: &mut Ctx, op: &str, threads: u32) {
     // measure on an ample manager
     let (b, m) = {
         let mref = dd::fresh::<K>(N, &[0, 1, 2, 3], 4096, 64, 1);
@@ -317,10 +379,10 @@ fn sweep<K: K14>(ctx: &mut Ctx, op: &str, threads: u32) {
     };
     ctx.sample(|| json!({"kind": K::NAME, "op": op, "nodes_ballast_and_operands": b, "nodes_allocated_by_operation": m, "capacities": format!("0..={}", b + m + 2)}));
     let mut b0 = None;
-    let reps = if threads > 1 { 8 } else { 1 };
+    let reps = if threads > 1 && threads != 101 { 8 } else { 1 };
     for c in 0..=(b + m + 2) {
         for _ in 0..reps {
-            run_at::<K>(ctx, op, c, threads, &mut b0);
+            run_at::<K>(ctx, op, c, threads, &mut b0, m);
         }
     }
 }
@@ -328,7 +390,11 @@ fn sweep<K: K14>(ctx: &mut Ctx, op: &str, threads: u32) {
 pub fn run(ctx: &mut Ctx) {
     let shard = ctx.shard.clone();
     let p: Vec<&str> = shard.split(':').collect();
-    let threads = if p[2] == "t2" { 2 } else { 1 };
+    let threads = match p[2] {
+        "t2" => 2,
+        "t1d4" => 101, // encoded: one worker, split depth 4
+        _ => 1,
+    };
     let op = p[1].to_string();
     match (p[0], p[1]) {
         (k, "reorder") => reorder_script(ctx, k),
